@@ -24,7 +24,11 @@ RULE = ("random histories of up to 30 ops on the real RollingFileAppender: trigg
         "second while the previous rotation (1/6 of the cases: gzip of a 12-40 KB file) is still running; after "
         "every op a consistent 'pending' snapshot is taken at once (every retained record must be in some archive, "
         "temp or active file), then the driver waits until no temp file is left and compares the directory with "
-        "the synchronous model and the suffix oracle. non-trivial = at least 2 records "
+        "the synchronous model and the suffix oracle. EXPLORATION (60 quick / 600 thorough), a fault at the "
+        "archive step, which is C08's subject: gzip roller with count 1 whose archive slot is a symlink to /dev/full "
+        "while the first records arrive - rotations attempted meanwhile must make append return Err and keep the "
+        "active file (model: append with a failing roller), after healing nothing acknowledged may be missing. "
+        "One lifetime of 520 appends under an on-start-up trigger. non-trivial = at least 2 records "
         "and a trigger able to fire; distinct = distinct case line")
 ASSUMPTIONS = [a for a in rc.COMMON_ASSUMPTIONS if not a.startswith("synchronous rotation")] + [
     "background_rotation: TRACE VALIDATION AT QUIESCENT POINTS only - the theorems are about the synchronous roller; "
@@ -57,6 +61,9 @@ def corpus():
         # background rotation: two roll-overs back to back behind a slow (gzip of 32 KiB) first rotation
         [[0, 0], [1, 0, 3, 1, 0, 1], [1, bytes(range(256)) * 128], 1,
          [[2, [[[b"one"], [b"two"], [b"three"]]]], [0, [b"four"]]]],
+        # archive slot on /dev/full: the over-limit append returns Err and keeps the file; healed, all is archived
+        [[0, 4], [1, 0, 1, 1, 0, 0], [0], 1,
+         [[8], [0, [b"abc"]], [0, [b"def"]], [0, [b"g"]], [9], [0, [b"h"]], [0, [b"ijklm"]]]],
         [[2, 0, [0, 0, rc.NEVER, 0, 0, 0]], [1, 7, 3, 1], [1, b"old"], 1,
          [[0, [b"r1"]], [0, [b"r", b"2"]], [0, [b"r3"]], [0, [b"r4"]], [0, [b"r5"]], [0, [b"r6"]]]],
     ]
@@ -149,6 +156,25 @@ def bg_case(rng):
     return [trig, roller, pre, 1, ops]
 
 
+def enospc_case(rng):
+    """EXPLORATION (fault at the archive step; C08 is the property that owns it): gzip window roller with
+    count 1 whose archive slot is a symlink to /dev/full while the first records arrive - every rotation
+    attempted meanwhile must fail (append returns Err, active file kept), after healing everything is archived"""
+    if rng.chance(1, 2):
+        trig = [0, rng.choice([3, 8, 13])]
+    else:
+        trig = [2, rng.below(2), [rng.choice([0, rc.NEVER, rc.NEVER]) for _ in range(30)]]
+    ops, rid = [[8]], 0
+    for phase in range(2):
+        for _ in range(rng.range(2, 8)):
+            ops.append(rc.op_append(rng, "%d" % rid, rng.choice([1, 2, 4, 6, 9, 12])))
+            rid += 1
+        if phase == 0:
+            ops.append([9])
+    pre = [0] if rng.chance(1, 2) else [1, rc.rec_bytes(rng, "pre", rng.choice([0, 2, 7]))]
+    return [trig, [1, rng.choice([0, 1, 7]), 1, 1, 0, 0], pre, 1, ops]
+
+
 def gen_trigger(rng, big):
     k = rng.below(11)
     if k == 10:
@@ -217,6 +243,11 @@ def cases(rng, tier):
         out.append(hot_case(rng))
     for _ in range(250 if tier == "quick" else 3000):
         out.append(bg_case(rng))
+    for _ in range(60 if tier == "quick" else 600):
+        out.append(enospc_case(rng))
+    # one long lifetime: more than 2 x 256 consultations of one on-start-up trigger
+    out.append([[1, 2], [1, 0, 2, 0, 0, 0], [1, b"old"], 1,
+                [rc.op_append(rng, "%d" % j, rng.choice([1, 2, 3])) for j in range(520)]])
     return out
 
 
